@@ -99,7 +99,7 @@ pub mod verif {
     };
     pub use super::{
         query::VerifQueryState,
-        verif_glue::{VerifKadDump, VerifKademlia, VerifProbe, VerifProbeEntry},
+        verif_glue::{VerifKadDump, VerifKademlia, VerifProbe, VerifProbeEntry, VerifTableNode},
     };
 }
 
